@@ -183,9 +183,14 @@ Definition exec (P : progs) (i c : nat) (s : state) : option state :=
             else if existsb isW (thr s) then   (* a parked receiver takes the value directly *)
               match nth_error (thr s) c with
               | Some w => if isW w
-                          then Some (mkS (q s) (closed s) (owner s) (cap s)
-                                         (upd (upd (thr s) c (hand w (Some (arg t)) true)) i (set_cont t (sent ++ k)))
-                                         (pushed s ++ [arg t]) (delivered s ++ [arg t]) (race s) (fatal s))
+                          then (* receivers only park on an empty buffer, so x is the value sent; written as
+                                  "append, then the receiver takes the head" the step is FIFO by construction *)
+                               match q s ++ [arg t] with
+                               | x :: q' => Some (mkS q' (closed s) (owner s) (cap s)
+                                                      (upd (upd (thr s) c (hand w (Some x) true)) i (set_cont t (sent ++ k)))
+                                                      (pushed s ++ [arg t]) (delivered s ++ [x]) (race s) (fatal s))
+                               | [] => None
+                               end
                           else None
               | None => None
               end
